@@ -252,3 +252,50 @@ like_class_sym!(c20_like_prefix_rewrite_4, Class::Prefix, 4, "LIKE rewritten to 
 like_class_sym!(c20_like_suffix_rewrite_4, Class::Suffix, 4, "LIKE rewritten to ends_with accepts exactly the strings the pattern denotes");
 // @h name=c20_like_contains_rewrite_4 props=C20,C02 tier=thorough
 like_class_sym!(c20_like_contains_rewrite_4, Class::Contains, 4, "LIKE rewritten to contains accepts exactly the strings the pattern denotes");
+
+/// Pattern bytes symbolic, pattern LENGTH concrete (std's length-dependent fast paths fold),
+/// subject fully symbolic: the 4-byte patterns, one harness per class.
+macro_rules! like_class_len {
+    ($name:ident, $class:expr, $plen:expr, $n:expr, $desc:expr) => {
+        #[kani::proof]
+        #[kani::unwind(8)]
+        fn $name() {
+            let pb: [u8; $plen] = kani::any();
+            let sb: [u8; $n] = kani::any();
+            let slen: usize = kani::any();
+            kani::assume(slen <= $n);
+            let mut i = 0;
+            while i < $plen {
+                kani::assume(alpha(pb[i]));
+                i += 1;
+            }
+            let mut j = 0;
+            while j < $n {
+                kani::assume(alpha(sb[j]));
+                j += 1;
+            }
+            kani::assume(utf8_ok(&pb) && utf8_ok(&sb[..slen]));
+            let p = unsafe { core::str::from_utf8_unchecked(&pb) };
+            let s = &sb[..slen];
+            kani::assume(classify(p) == $class);
+            let want = like_ref(s, p.as_bytes());
+            let t = p.trim_matches('%').as_bytes();
+            let got = match $class {
+                Class::Eq => bytes_eq(s, p.as_bytes()),
+                Class::Prefix => starts_with(s, t),
+                Class::Suffix => ends_with(s, t),
+                Class::Contains => contains(s, t),
+                Class::None => want,
+            };
+            kani::cover!(want);
+            kani::cover!(!want);
+            assert!(got == want, $desc);
+        }
+    };
+}
+// @h name=c20_like_prefix_rewrite_len4 props=C20,C02 tier=quick
+like_class_len!(c20_like_prefix_rewrite_len4, Class::Prefix, 4, 4, "LIKE rewritten to starts_with accepts exactly the strings the pattern denotes");
+// @h name=c20_like_suffix_rewrite_len4 props=C20,C02 tier=thorough
+like_class_len!(c20_like_suffix_rewrite_len4, Class::Suffix, 4, 4, "LIKE rewritten to ends_with accepts exactly the strings the pattern denotes");
+// @h name=c20_like_contains_rewrite_len4 props=C20,C02 tier=thorough
+like_class_len!(c20_like_contains_rewrite_len4, Class::Contains, 4, 4, "LIKE rewritten to contains accepts exactly the strings the pattern denotes");
